@@ -257,32 +257,37 @@ pub fn long_cases(huge: bool) -> Vec<ValidCase> {
         long_case(long_cfg(0, 1, false), 1_790_000_000u64 * 90_000, 0, 1, ex(30, 45)),
         long_case(long_cfg(2, 0, true), (1u64 << 50) - 6_000, 0, 0, ex(12, 0)),
     ];
-    // a slideshow whose audio arrives in batches: 25 running packets per video frame and then three packets stamped with
+    // a slideshow whose audio arrives in batches: `run` running packets per video frame and then `ties` packets stamped with
     // exactly the next frame's time (several ties at the end of a long audio run)
-    {
+    for (n, &(run, ties)) in [(25u32, 3u32), (9, 2), (100, 5), (40, 4), (8, 2), (63, 7)].iter().enumerate() {
         let mut c = long_case(long_cfg(2, 7, true), 0, 0, 1, ex(0, 0));
         c.expand = None;
-        c.video = (0..4u32).map(|i| VGene { ddts: 45_000, cts: 0, key: i == 0, size: 40, shape: 0, jit: 0, big: 0 }).collect();
+        // `run` steps of 1800 and one more onto the frame's tick
+        let period = (run + 1) * 1800;
+        c.video = (0..4u32).map(|i| VGene { ddts: period, cts: 0, key: i == 0, size: 40, shape: 0, jit: 0, big: 0 }).collect();
         let mut audio = Vec::new();
-        for k in 0..3u32 {
-            for i in 0..25u32 {
-                audio.push(AGene { dpts: if k == 0 && i == 0 { 0 } else { 1800 }, size: 20 + (i % 7) as u16 * 3 + 1, shape: 3, jit: 0 });
+        for _k in 0..3u32 {
+            for i in 0..run {
+                audio.push(AGene { dpts: 1800, size: 20 + (i % 7) as u16 * 3 + 1, shape: 3, jit: 0 });
             }
-            // three packets on the frame's tick: the first closes the run (dpts 1800), two more share its time
-            audio.push(AGene { dpts: 1800, size: 31, shape: 3, jit: 0 });
-            audio.push(AGene { dpts: 0, size: 33, shape: 3, jit: 0 });
-            audio.push(AGene { dpts: 0, size: 35, shape: 3, jit: 0 });
-            // back onto the 1800 grid after the tie: nothing to do, the next packet advances by 1800
-        }
-        // the run above counts 26 steps of 1800 per frame (46 800 ticks); make the frames 46 800 apart so that the ties are exact
-        for g in c.video.iter_mut() {
-            g.ddts = 46_800;
+            // `ties` packets on the frame's tick: the first closes the run (dpts 1800), the others share its time
+            for t in 0..ties {
+                audio.push(AGene { dpts: if t == 0 { 1800 } else { 0 }, size: 31 + 2 * t as u16, shape: 3, jit: 0 });
+            }
         }
         c.audio = audio;
+        // the first packet sits one step after the first frame
+        c.a_off = 1800;
+        if n % 2 == 1 {
+            c.cfg = long_cfg(0, 1, false);
+            c.order = 5;
+        }
         v.push(c.clone());
-        c.cfg = long_cfg(0, 1, false);
-        c.order = 5;
-        v.push(c);
+        if n == 0 {
+            c.cfg = long_cfg(0, 1, false);
+            c.order = 5;
+            v.push(c);
+        }
     }
     // a constant decoder delay of two frames on a long constant-rate recording with audio (no reordering)
     {
@@ -356,7 +361,8 @@ pub struct FirstCfg {
 }
 
 pub fn ccfg(g: &CfgGene) -> CCfg {
-    let audio = g.audio % 8;
+    // some configurations without audio say so explicitly (AudioCodec::None through the builder, see CCfg::audio == 8)
+    let audio = if g.audio % 8 == 0 && g.channels % 3 == 0 { 8 } else { g.audio % 8 };
     let channels = if audio == 7 { (g.channels % 8) + 1 } else { (g.channels % 6) + 1 };
     CCfg {
         codec: g.codec % 4,
@@ -372,7 +378,7 @@ pub fn ccfg(g: &CfgGene) -> CCfg {
         ctime: g.ctime,
         lang: g.lang.clone(),
         empty_metadata: false,
-        alias_builder: false,
+        alias_builder: g.rate_idx % 2 == 1,
         // a third of the configurations set things twice (decoy first, real value last), see CCfg::reconfig
         misalign: 0,
         reconfig: (if (g.width as u32 + g.height as u32) % 3 == 0 { (g.width % 16) as u8 } else { 0 }) | ((g.height % 6) as u8) << 4,
